@@ -7,7 +7,7 @@ SPEC = {
     "thorough_budget_s": 900,
     "chunk": 15,
     "rule": (
-        "one case = one seeded history on one document (templates and samples with bounded table sizes, opened by every route of C03) in which most steps call a seeded ORDER of entry points from an allow-list of ~100 reporting calls (getters and searches of Document/Body/Element/Table/Row/Meta/Manifest, get_formatted_text plain and rst, to_markdown, str(), to_csv(None), show_styles, get_formated_meta, meta.as_dict/as_text/as_json, replace(pattern) without replacement (also formatted=True), search*, match, text_at, serialize and pretty serialisations, ...), interleaved with edits (paragraphs with spacing elements, tables, images, body cleared), saves and reopen (restart). Each entry point is called, the serialisation of all five XML parts + the bytes of every other part are compared byte for byte with the state before, it is called again and must give the same answer, and a fixed little document is exported to Markdown / str() to detect a process-global export context left dirty (MD_GLOBAL). A call that raises must still leave the document and the export context untouched. distinct = distinct run digest. non-trivial = >= 2 entry points called."
+        "one case = one seeded history on one document (templates and samples with bounded table sizes, opened by every route of C03) in which most steps call a seeded ORDER of entry points from an allow-list of ~120 reporting calls (among them area reads starting in every column, the same row questions to one Table object in three orders, reads at and past the end, what lies between paired reference marks / annotations / tracked changes) (getters and searches of Document/Body/Element/Table/Row/Meta/Manifest, get_formatted_text plain and rst, to_markdown, str(), to_csv(None), show_styles, get_formated_meta, meta.as_dict/as_text/as_json, replace(pattern) without replacement (also formatted=True), search*, match, text_at, serialize and pretty serialisations, ...), interleaved with edits (paragraphs with spacing elements, ranges between paired marks, tables with repeated runs incl. explicit repeat counts of 1, images, an unfilled table of contents, foreign named ranges, xml:id-only tracked changes, a sparse meta.xml, comments / PIs around the root elements - the last five put in at the XML level -, body cleared), saves and reopen (restart). Each entry point is called, the serialisation of all five XML parts + the bytes of every other part are compared byte for byte with the state before, it is called again and must give the same answer, and a fixed little document is exported to Markdown / str() to detect a process-global export context left dirty (MD_GLOBAL). A call that raises must still leave the document and the export context untouched. distinct = distinct run digest. non-trivial = >= 2 entry points called."
     ),
     "assumptions": [
         "the part-store model (engines/docsim.py PartStore) and the independent package reader (simkit/xmlref.py read_package, c14n) are trusted",
